@@ -200,7 +200,7 @@ impl Fmt for PqFmt {
         set_component("parquet.sync_reader");
         let f = SimFile::new(ctx, data, plan);
         let mut out = ROut::new(f.state());
-        let opts = parquet::arrow::arrow_reader::ArrowReaderOptions::new().with_page_index(self.cfg.page_index);
+        let opts = parquet::arrow::arrow_reader::ArrowReaderOptions::new().with_page_index_policy(if self.cfg.page_index { parquet::file::metadata::PageIndexPolicy::Optional } else { parquet::file::metadata::PageIndexPolicy::Skip });
         match ParquetRecordBatchReaderBuilder::try_new_with_options(f, opts) {
             Err(e) => out.err = Some(e.to_string()),
             Ok(b) => match b.with_batch_size(self.cfg.reader_batch).build() {
